@@ -8,6 +8,7 @@ Every random choice derives from random.Random(seed * 1000003 + k)."""
 import collections, json, os, random, re, shutil, sys, threading, time
 from concurrent.futures import ThreadPoolExecutor
 from . import core, engine, gen, canon, httpkit as H, oracles as O
+from . import loader_corr
 from . import http_checks as HC
 
 PAR = HC.PAR
@@ -959,7 +960,16 @@ C17_BREAK_CLASS = {
     "foot_unknown": "stop-file-unknown-stop", "foot_uuid": "malformed-footpath-uuid", "foot_short_time": "footpath-short-time-array",
     "foot_short_dist": "footpath-short-distance-array", "node_file_missing": "deleted-node-file", "path_node": "path-unknown-stop", "path_line": "path-unknown-line",
     "path_data": "path-data-not-json", "scenario_ids": "scenario-unknown-ids", "scenario_only_unknown": "scenario-only-unknown-ids", "scenario_uuid": "malformed-scenario-service-uuid",
+    # record-level quirks added with the Lean loader model (Model/Load.lean)
+    "dup_trip": "duplicate-trip-uuid", "trip_foreign_path": "trip-path-of-another-line", "trip_backwards": "trip-arrival-before-previous-departure",
+    "foot_negative": "footpath-negative-travel-time", "dup_node": "duplicate-stop-uuid", "dup_line": "duplicate-line-uuid", "dup_path": "duplicate-path-uuid",
+    "dup_scenario": "duplicate-scenario-uuid", "scenario_bad_late": "malformed-scenario-line-uuid", "scenario_sim_bad": "malformed-scenario-simulation-uuid",
+    "path_seg_wrong": "path-segment-distance-not-a-number", "path_seg_null": "path-segment-distance-null", "path_extra_segs": "path-more-segments-than-stops",
 }
+# the kinds of the second block go through the real binary on ONE dataset per quick run (all datasets in the thorough tier): the record-level
+# loader correspondence (check/loader_corr.py) runs every kind on 30 datasets in-process on every run
+C17_RECORD_LEVEL_KINDS = ["dup_trip", "trip_foreign_path", "trip_backwards", "foot_negative", "dup_node", "dup_line", "dup_path", "dup_scenario",
+                          "scenario_bad_late", "scenario_sim_bad", "path_seg_wrong", "path_seg_null", "path_extra_segs"]
 # quick / thorough volumes: (datasets with the full byte-level enumeration, datasets with a reduced one, datasets for the --break kinds)
 C17_VOLUME = {"quick": dict(full=1, reduced=1, breaks=4, trunc=48, flips=150, pairs=40, zero=5, update_share=6),
               "thorough": dict(full=1, reduced=3, breaks=12, trunc=None, flips=None, pairs=None, zero=12, update_share=4)}      # ~50 k tests, ~25 min
@@ -1399,7 +1409,13 @@ def run_c17(tier, seed, replay=None, theorems=None, module=None):
     tq = "thorough" if tier == "thorough" else "quick"
     vol = C17_VOLUME[tq]
     try:
-        core.lean_phase(rep, module if ths else None, ths, thorough=(tier == "thorough"))
+        model_exe = core.lean_phase(rep, module if ths else None, ths, thorough=(tier == "thorough"))
+        if replay and open(replay).read().lstrip().split("\n")[0].startswith("#!loader") or (replay and "\n#!loader" in open(replay).read()):
+            text = open(replay).read()
+            loader_corr.run_leg(rep, model_exe, seed, tier, "broken", replay_text=text[text.index("#!loader"):])
+            return rep.finish()
+        if not replay:
+            loader_corr.run_leg(rep, model_exe, seed, tier, "broken")
         server = core.harness_phase(rep, "server", "asan")
         cachegen = core.harness_phase(rep, "cachegen", "plain")
         try:
@@ -1435,7 +1451,8 @@ def run_c17(tier, seed, replay=None, theorems=None, module=None):
             k = 0
             for i in range(vol["full"]): dsets.append((c17_dataset(seed, k), "full", breaks)); k += 1
             for i in range(vol["reduced"]): dsets.append((c17_dataset(seed, k), "reduced", None)); k += 1
-            for i in range(vol["breaks"]): dsets.append((c17_dataset(seed, k), None, breaks)); k += 1
+            fewer = breaks if tier == "thorough" else [b for b in breaks if b not in C17_RECORD_LEVEL_KINDS]
+            for i in range(vol["breaks"]): dsets.append((c17_dataset(seed, k), None, fewer)); k += 1
         t0 = time.time()
         dd = Dedup(rep, stats)
         for ds, byte_level, brk in dsets:
